@@ -15,6 +15,7 @@ import (
 	"runtime"
 	"runtime/metrics"
 	"strings"
+	"sync/atomic"
 	"syscall"
 	"time"
 
@@ -86,7 +87,13 @@ func (r ReadResult) PairOK() bool {
 	if r.Panic != nil {
 		return false
 	}
-	return IsNil(r.Pkt) != (r.Err == nil)
+	if r.Err != nil {
+		// "a nil packet with a non-nil error": the interface value itself must
+		// be nil - a nil *Publish wrapped in the interface compares unequal to
+		// nil in the caller's hands and panics on the first method call
+		return r.Pkt == nil
+	}
+	return !IsNil(r.Pkt)
 }
 
 // Accepted says whether the call returned a packet and no error.
@@ -394,7 +401,18 @@ type Meter struct {
 	cpu0    int64
 	Alloc   uint64 // bytes allocated during the call
 	CPUNano int64  // thread CPU time of the call
+	// ForcedGC counts collections forced by program code (runtime.GC,
+	// debug.FreeOSMemory) during the call: work proportional to the whole
+	// heap of the application, whatever the frame's size. The harness's own
+	// forced collections are counted in HarnessGCs and subtracted.
+	ForcedGC uint32
+	gc0      uint32
+	hgc0     uint32
 }
+
+// HarnessGCs is incremented by harness code around every collection it
+// forces itself while a metered call may be running (heap poller).
+var HarnessGCs atomic.Uint32
 
 func NewMeter() *Meter { return &Meter{} }
 
@@ -412,6 +430,8 @@ func threadCPU() int64 {
 func (m *Meter) Start() {
 	runtime.ReadMemStats(&m.ms)
 	m.alloc0 = m.ms.TotalAlloc
+	m.gc0 = m.ms.NumForcedGC
+	m.hgc0 = HarnessGCs.Load()
 	m.cpu0 = threadCPU()
 }
 
@@ -419,6 +439,10 @@ func (m *Meter) Stop() {
 	m.CPUNano = threadCPU() - m.cpu0
 	runtime.ReadMemStats(&m.ms)
 	m.Alloc = m.ms.TotalAlloc - m.alloc0
+	m.ForcedGC = 0
+	if d, h := m.ms.NumForcedGC-m.gc0, HarnessGCs.Load()-m.hgc0; d > h {
+		m.ForcedGC = d - h
+	}
 }
 
 // LiveHeap returns the bytes of live (and not yet swept) heap objects.
